@@ -78,20 +78,35 @@ static int recsMode(const char *inFile, const char *outFile)
             if (variant == 3) { std::reverse(vo.begin(), vo.end()); std::reverse(co.begin(), co.end()); }
             Built b; buildPerm(I, b, vo, co, vperm, cperm, variant * 1000);
             bool thrown = false;
-            try { VNS::IncSolver s(b.vs, b.cs); if (variant == 1) s.satisfy(); else s.solve(); }
-            catch (...) { thrown = true; }
             static const char *names[] = {"inc", "inc", "inc-perm", "inc-rev"};
-            runJson(j, names[variant], variant == 1 ? "satisfy" : "solve", thrown, b.vs, b.cs, S, &vperm, &cperm);
+            static const char *anames[] = {"inc-again", "", "inc-perm-again", "inc-rev-again"};
+            try {
+                VNS::IncSolver s(b.vs, b.cs); if (variant == 1) s.satisfy(); else s.solve();
+                runJson(j, names[variant], variant == 1 ? "satisfy" : "solve", false, b.vs, b.cs, S, &vperm, &cperm);
+                if (variant != 1) {
+                    // the same call once more without any change in between (classifies early-exit findings, as for live re-solves)
+                    bool t2 = false; try { s.solve(); } catch (...) { t2 = true; }
+                    runJson(j, anames[variant], "solve", t2, b.vs, b.cs, S, &vperm, &cperm);
+                }
+            }
+            catch (...) { thrown = true; }
+            if (thrown) runJson(j, names[variant], variant == 1 ? "satisfy" : "solve", true, b.vs, b.cs, S, &vperm, &cperm);
         }
 #ifdef HAVE_STATIC_SOLVER
-        for (int variant = 0; variant < 2; variant++) {
-            std::vector<int> vperm, cperm; Built b; buildPerm(I, b, idv, idc, vperm, cperm, 0);
+        for (int variant = 0; variant < 4; variant++) {
+            // 0: static solve, 1: static satisfy, 2: static solve on a permuted/relabelled copy, 3: static solve in reversed order
+            std::vector<int> vo = idv, co = idc, vperm, cperm;
+            if (variant == 2) { for (int k = I.n - 1; k > 0; k--) std::swap(vo[k], vo[rng.range(0, k)]);
+                                for (int k = I.m - 1; k > 0; k--) std::swap(co[k], co[rng.range(0, k)]); }
+            if (variant == 3) { std::reverse(vo.begin(), vo.end()); std::reverse(co.begin(), co.end()); }
+            Built b; buildPerm(I, b, vo, co, vperm, cperm, 0);
             bool thrown = false;
             VNS::Solver *s = new VNS::Solver(b.vs, b.cs);
             try { if (variant == 1) s->satisfy(); else s->solve(); }
             catch (...) { thrown = true; }
             delete s;
-            runJson(j, "static", variant == 1 ? "satisfy" : "solve", thrown, b.vs, b.cs, S, &vperm, &cperm);
+            static const char *snames[] = {"static", "static", "static-perm", "static-rev"};
+            runJson(j, snames[variant], variant == 1 ? "satisfy" : "solve", thrown, b.vs, b.cs, S, &vperm, &cperm);
         }
 #endif
         j.end().end(); emit(j);
@@ -161,7 +176,62 @@ static int repeatMode(const char *inFile, const char *outFile)
         lim("A", A); lim("B", B);
         double dev = 0; bool shape = A.size() == T.size();
         for (size_t s = 0; shape && s < A.size(); s++) for (size_t v = 0; v < A[s].size(); v++) dev = std::max(dev, fabs(T[s][v] - (A[s][v] + k / 1024.0)));
-        j.k("shape").b(shape).k("devE12").i(std::isfinite(dev) ? (long long)std::min(dev * 1e12, 2e9) : 2000000000).end();
+        j.k("shape").b(shape).k("devE12").i(std::isfinite(dev) ? (long long)std::min(dev * 1e12, 2e9) : 2000000000);
+        // independence of identifiers and order: the problem as given against a relabelled copy with shuffled variables and constraints,
+        // for both solvers (fresh solve; judged for feasible systems of inequalities over an acyclic graph, where neither solver reports anything)
+        {
+            bool plain = true; for (auto &c : I.cons) if (c.eq || c.l >= c.r) plain = false;
+            std::vector<int> idv(I.n), idc(I.m), vo, co, vp0, cp0, vp1, cp1;
+            std::iota(idv.begin(), idv.end(), 0); std::iota(idc.begin(), idc.end(), 0);
+            vo = idv; co = idc;
+            for (int q = I.n - 1; q > 0; q--) std::swap(vo[q], vo[rng.range(0, q)]);
+            for (int q = I.m - 1; q > 0; q--) std::swap(co[q], co[rng.range(0, q)]);
+            double devInc = 0, devStatic = 0, againDev = 0; bool judged = plain;
+            for (int which = 0; plain && which < 2; which++) {
+                Built a, b; buildPerm(I, a, idv, idc, vp0, cp0, 0); buildPerm(I, b, vo, co, vp1, cp1, 5000);
+                bool bad = false;
+                try {
+                    if (which == 0) {
+                        VNS::IncSolver s1(a.vs, a.cs); s1.solve(); VNS::IncSolver s2(b.vs, b.cs); s2.solve();
+                        // does the same call once more still move anything?  (then solve() had stopped before its own fixpoint)
+                        Built a2, b2; std::vector<int> t1, t2, t3, t4; buildPerm(I, a2, idv, idc, t1, t2, 0); buildPerm(I, b2, vo, co, t3, t4, 5000);
+                        VNS::IncSolver r1(a2.vs, a2.cs); r1.solve(); r1.solve(); VNS::IncSolver r2(b2.vs, b2.cs); r2.solve(); r2.solve();
+                        for (int v = 0; v < I.n; v++) againDev = std::max(againDev, std::max(fabs(a.vs[v]->finalPosition - a2.vs[v]->finalPosition), fabs(b.vs[v]->finalPosition - b2.vs[v]->finalPosition)));
+                    }
+#ifdef HAVE_STATIC_SOLVER
+                    else { VNS::Solver s1(a.vs, a.cs); s1.solve(); VNS::Solver s2(b.vs, b.cs); s2.solve(); }
+#endif
+                } catch (...) { bad = true; }
+                for (auto c : a.cs) if (c->unsatisfiable) bad = true;
+                for (auto c : b.cs) if (c->unsatisfiable) bad = true;
+                if (bad) { judged = false; break; }
+                double dv = 0; for (int v = 0; v < I.n; v++) dv = std::max(dv, fabs(a.vs[v]->finalPosition - b.vs[vp1[v]]->finalPosition));
+                (which == 0 ? devInc : devStatic) = dv;
+            }
+            auto e9 = [](double d) { return std::isfinite(d) ? (long long)std::min(d * 1e9, 2e9) : 2000000000LL; };
+            // the same question for the history as a whole, as given and translated: every solve() is issued twice in a row
+            {
+                VInst D = I; D.ops.clear();
+                std::vector<bool> repeat;                   // per snapshot: is it the second of a doubled solve?
+                VInst::Op sv; sv.kind = 3;
+                repeat.push_back(false);                    // the initial solve of runHistory
+                D.ops.push_back(sv); repeat.push_back(true);
+                for (auto &op : I.ops) {
+                    D.ops.push_back(op);
+                    if (op.kind == 3) { repeat.push_back(false); D.ops.push_back(op); repeat.push_back(true); }
+                    else if (op.kind == 4) repeat.push_back(false);
+                }
+                std::vector<std::vector<double> > T1, T2;
+                runHistory(D, 0, T1); runHistory(D, k / 1024.0, T2);
+                for (size_t q = 1; q < T1.size() && q < T2.size() && q < repeat.size(); q++) if (repeat[q])
+                    for (size_t v = 0; v < T1[q].size(); v++) {
+                        againDev = std::max(againDev, fabs(T1[q][v] - T1[q - 1][v]));
+                        againDev = std::max(againDev, fabs(T2[q][v] - T2[q - 1][v]));
+                    }
+            }
+            j.k("ordJudged").b(judged).k("ordIncE9").i(e9(devInc)).k("ordStaticE9").i(e9(devStatic)).k("againE9").i(e9(againDev));
+        }
+        j.end();
         out.line((first ? "" : ",") + j.out); first = false;
         prev = I; havePrev = true;
     }
@@ -220,6 +290,13 @@ static int genMode(int count, uint64_t seed, const char *outFile, const std::str
                 I.ops.push_back(op);
                 VInst::Op call; call.kind = rng.coin(4, 5) ? 3 : 4; I.ops.push_back(call);
             }
+        } else if (cls == "dag") {      // acyclic systems of inequalities with forks and diamonds, desired positions badly out of order (several splits needed)
+            I.n = rng.range(6, 19);
+            I.des.resize(I.n); I.w.resize(I.n); I.sc.assign(I.n, 1);
+            for (int &d : I.des) d = rng.range(-20, 20);
+            for (int &x : I.w) x = rng.range(1, 3);
+            I.m = I.n + rng.range(0, I.n);
+            for (int k = 0; k < I.m; k++) I.cons.push_back(randCon(rng, I.n, 0, 6, 0, true));
         } else if (cls == "med") {      // medium instances for the certificate check
             I.n = rng.range(4, 12);
             I.des.resize(I.n); I.w.resize(I.n); I.sc.assign(I.n, 1);
